@@ -65,16 +65,22 @@ filter kept; forwarding twice. -/
 
 /-- is some inReplyTo/object/target/tag value, reachable through at most `d` levels of embedded values and
 fetched IRIs, owned?  (`G`: what dereferencing yields; `owns`: the application's answer) -/
+def ownedEmb (F : TFacts) (owns : Iri → Bool) (t : J) : Bool :=
+  match getId F t with
+  | .ok id => owns id
+  | .error _ => false
+
+/-- what a fetched IRI contributes to the search: its document, if it can be read -/
+def fetchedDoc (G : Iri → E Doc) (u : Iri) : Option J :=
+  match G u with
+  | .ok (.val t) => some t
+  | _ => none
+
 def ownsValueSpec (F : TFacts) (G : Iri → E Doc) (owns : Iri → Bool) : Nat → J → Bool
   | 0, _ => false
   | d + 1, v =>
-    let (types, iris) := Pub.getInboxForwardingValues F v
-    iris.any owns ||
-    types.any (fun t => match getId F t with
-      | .ok id => owns id
-      | .error _ => false) ||
-    (types ++ iris.filterMap (fun u => match G u with
-      | .ok (.val t) => some t
-      | _ => none)).any (ownsValueSpec F G owns d)
+    (Pub.getInboxForwardingValues F v).2.any owns ||
+    (Pub.getInboxForwardingValues F v).1.any (ownedEmb F owns) ||
+    ((Pub.getInboxForwardingValues F v).1 ++ (Pub.getInboxForwardingValues F v).2.filterMap (fetchedDoc G)).any (ownsValueSpec F G owns d)
 
 end AV.Spec.C17
